@@ -3,7 +3,7 @@
 use serde_json::Value;
 
 use crate::fw::{Batch, CheckSpec, Tier, drive};
-use crate::{Args, eng_disk, eng_hist, eng_sched, eng_store, eng_txm};
+use crate::{Args, eng_disk, eng_hist, eng_rdf, eng_sched, eng_store, eng_txm};
 
 const REAL_TXM: &[&str] = &["grafeo_engine::transaction::TransactionManager (all of manager.rs)"];
 
@@ -13,6 +13,7 @@ pub fn run_check(id: &str, args: &Args) -> i32 {
         "C04" => c04(args),
         "C14" => c14(args),
         "C20" => c20(args),
+        "C13" => c13(args),
         "C01" => c_hist(args, "C01"),
         "C02" => c_hist(args, "C02"),
         "C05" => c_disk(args, "C05"),
@@ -238,6 +239,41 @@ fn c_hist(args: &Args, prop: &'static str) -> i32 {
     drive(batch, &|seed, _i| eng_hist::run_one(seed, prop, thorough), Some(&eng_hist::minimise), &mut |_| {})
 }
 
+fn c13(args: &Args) -> i32 {
+    let thorough = args.tier == Tier::Thorough;
+    let spec = CheckSpec {
+        property: "C13",
+        check_name: "C13",
+        level: "exploration",
+        engine: "RDF+SCHED",
+        rule: "histories of insert/remove/clear (duplicates, removal of absent triples, IRIs, blank nodes, plain/language-tagged/typed/empty literals), of the transaction buffers (insert_in_tx/remove_in_tx/commit_tx/rollback_tx with two interleaved transactions) and, in a quarter of the runs, of SPARQL INSERT DATA/DELETE DATA through a GrafeoDB; after every step all 8 bound/unbound pattern shapes over every term of the universe, the per-position lookups, len/contains/stats/subjects/objects, every open transaction's pending view and (SPARQL runs) a fixed template family are compared with a BTreeSet model; 1 run in 50 is a thread-scheduled scenario (insert/remove/find of the same triple from 2-3 simulated threads). Non-trivial = >=2 steps; distinct = distinct (configuration, operation list)".into(),
+        real: vec!["grafeo_core::graph::rdf::{RdfStore, Term, Triple, TriplePattern}", "SPARQL parser/translator/RDF planner/operators (template family only)"],
+        stub: vec!["parking_lot blocking paths and OS threads in the thread-scheduled runs"],
+        assumptions: vec!["SPARQL result cells are compared by lexical form (the engine returns lexical forms)".into()],
+        unchecked: vec![
+            "'all queries from the SPARQL core grammar': a pure function of (triple set, query text) - decided here only for the fixed template family (single pattern in each shape, join on a shared variable, FILTER =, OPTIONAL, UNION, DISTINCT, COUNT, INSERT DATA/DELETE DATA)".into(),
+            "ring index (cargo feature off)".into(),
+            "blank nodes in SPARQL updates (fresh labels per request)".into(),
+        ],
+    };
+    let batch = Batch { spec, tier: args.tier, seed: args.seed, runs: runs(args, 20_000, 1_000_000), workers: args.workers };
+    drive(
+        batch,
+        &|seed, i| {
+            if i % 50 == 49 {
+                eng_sched::run_one(seed, eng_sched::Family::Rdf, "C13", if thorough { 60 } else { 30 })
+            } else {
+                eng_rdf::run_one(seed, thorough)
+            }
+        },
+        Some(&|f: &crate::fw::Finding| match f.replay["engine"].as_str() {
+            Some("SCHED") => eng_sched::minimise(f),
+            _ => eng_rdf::minimise(f),
+        }),
+        &mut |_| {},
+    )
+}
+
 pub fn replay_file(path: &str) -> i32 {
     let text = match std::fs::read_to_string(path) {
         Ok(t) => t,
@@ -262,6 +298,7 @@ pub fn replay_file(path: &str) -> i32 {
         Some("DISK") => eng_disk::replay(rep),
         Some("SCHED") => eng_sched::replay(rep, &prop),
         Some("HIST") => eng_hist::replay(rep),
+        Some("RDF") => eng_rdf::replay(rep),
         other => {
             eprintln!("harness error: unknown engine {other:?} in {path}");
             return 2;
